@@ -273,3 +273,8 @@ mod tests {
         }
     }
 }
+
+#[cfg(kani)]
+pub(crate) mod verif {
+    include!(concat!(env!("LIBP2P_VERIF"), "/hooks/identity_peer_id.rs"));
+}
